@@ -316,6 +316,9 @@ static void runShapes(Ctx &ctx, int64_t modelIndex, bool randomTrees)
         }
         if (!ok) {
             ++discarded;
+            if (!randomTrees) {
+                seen("discarded_shape", shapeName(shapes[si]));
+            }
             continue;
         }
         exprs.push_back(e);
